@@ -11,7 +11,7 @@ EXH = dict(BNames={'"numpy"', '"pytorch"', '"jax"', '"tensorflow"'}, Precs={'"64
 INV = ["TypeOK", "StaleFree", "DeadNeverCalled", "EventIffChanged", "AllLiveCalled", "NoDeadAfterFire"]
 TIERS = {
     "quick": dict(num=40, depth=60, MaxHist=10, backends={'"numpy"', '"pytorch"', '"jax"'}, procs=8),
-    "thorough": dict(num=400, depth=120, MaxHist=18, backends={'"numpy"', '"pytorch"', '"jax"', '"tensorflow"'}, procs=12),
+    "thorough": dict(num=150, depth=120, MaxHist=18, backends={'"numpy"', '"pytorch"', '"jax"', '"tensorflow"'}, procs=12),
 }
 SUITE = {"quick": ["tests/test_interpolate.py", "tests/test_events.py", "tests/test_backends.py"],
          "thorough": ["tests/test_interpolate.py", "tests/test_events.py", "tests/test_backends.py", "tests/test_public_api.py", "tests/test_pdf.py",
